@@ -84,7 +84,8 @@ static void junk_fill(uint8_t *p, size_t n, uint64_t seed) {
 
 void *SimHeap::alloc(size_t n, bool zero, size_t align) {
     ++allocs_in_op;
-    if (fail_at && allocs_in_op == fail_at) {
+    // fail_at > 0: exactly that request fails; fail_at < 0: memory is exhausted from request -fail_at of this operation on
+    if ((fail_at > 0 && allocs_in_op == fail_at) || (fail_at < 0 && allocs_in_op >= -fail_at)) {
         ++failed_in_op; ++n_failed;
         if (log) log->ev("heap.fail", cur_op, n);
         return nullptr;
